@@ -2,14 +2,11 @@
    (twice for a face lying in the plane). *)
 From Coq Require Import ZArith Reals Lra Psatz List Bool Lia Arith.
 From PW Require Import Num NumR Vec NpList Result.
-From PW.model Require Import M_slicing.
+From PW.model Require Import M_slicing M_slicing_spec.
 From PW.proofs Require Import P_vec P_nplist P_slicing P_slicing_face P_slicing_cover.
 Import ListNotations.
 Local Open Scope R_scope.
 
-Definition negd (ds : R * R * R) : R * R * R := (- dget ds 0, - dget ds 1, - dget ds 2).
-Definition all_zero (ds : R * R * R) : Prop := dget ds 0 = 0 /\ dget ds 1 = 0 /\ dget ds 2 = 0.
-Definition kept_frac (tol : R) (ds : R * R * R) : R := frac_case (face_case (signs3 ROps tol ds) true) ds.
 
 Lemma snapped3_neg tol ds : snapped3 tol ds -> snapped3 tol (negd ds).
 Proof.
@@ -76,7 +73,6 @@ Proof.
 Qed.
 
 (* a face whose three corners all count as lying on the plane *)
-Definition on3 (tol : R) (n o : vec3 R) (t : tri R) : Prop := forall k, (k < 3)%nat -> - tol <= pd n o (tget t k) <= tol.
 Lemma all_zero_on3 tol n o t : 0 <= tol -> (all_zero (tri_dists ROps tol n o t) <-> on3 tol n o t).
 Proof.
   intros Ht. unfold all_zero, on3, pd. rewrite !dget_tri_dists by lia. split.
